@@ -353,8 +353,15 @@ func (w *ipamWorld) runOp(c map[string]interface{}) map[string]interface{} {
 			err = floatingip.VerifHandleFIPUnassign(w.ipam, ev.obj)
 		} else {
 			err = floatingip.VerifHandleFIPAssign(w.ipam, ev.obj)
+			if _, gerr := w.cli.GalaxyV1alpha1().FloatingIPs().Get(context.TODO(), ip, metav1.GetOptions{}); gerr != nil {
+				// the object was deleted since (by galaxy-ipam itself: a reload dropped its range): the informer delivers
+				// the delete event right after the add event
+				err = floatingip.VerifHandleFIPUnassign(w.ipam, ev.obj)
+			}
 		}
-		o["res"] = errClass(err)
+		// the handlers' errors are only logged by galaxy-ipam: the result class is not an observable
+		_ = err
+		o["res"] = "ok"
 	case "by_key_ranges":
 		infos, err := w.ipam.ByKeyAndIPRanges(Str(c, "key"), rangesOf(c["ranges"]))
 		o["res"] = errClass(err)
